@@ -45,6 +45,24 @@ def modelTranslated (tcp auth : Bool) (m : Model) : Bool :=
   m.permissions.all (fun rl => rl.all (permTranslated tcp)) &&
   m.principals.all (fun rl => rl.all (prinTranslated tcp auth))
 
+/-- The issuer does not itself start with the whole `prefix` of a `prefix*` value that contains a
+    '/' (the case in which the generated issuer/subject split is not a prefix match - finding 2). -/
+def rpPrefixOK (v i : Str) : Bool :=
+  !(v != star && !hasPrefix star v && hasSuffix star v && v.contains '/' && hasPrefix v.dropLast i)
+
+/-- JWT claims as RequestAuthentication admits them: issuer and subject (when present as strings)
+    are non-empty and the subject carries no '/'. -/
+def Request.jwtOK (r : Request) : Bool :=
+  match claim r ["iss".toList], claim r ["sub".toList] with
+  | some (.str i), some (.str s) => !i.isEmpty && !s.isEmpty && !s.contains '/'
+  | _, _ => true
+
+/-- `rpPrefixOK` against the request's issuer. -/
+def rpValueOK (v : Str) (r : Request) : Bool :=
+  match claim r ["iss".toList] with
+  | some (.str i) => rpPrefixOK v i
+  | _ => true
+
 /-- Extended generators whose aggregated matcher is proved exact (`matcher_correct_jwt_claims`,
     `matcher_correct_envoy_filter`). -/
 def Gen.extInScope : Gen → Bool
@@ -54,17 +72,18 @@ def Gen.extInScope : Gen → Bool
 /-- A model rule inside the proven scope: a non-extended generator whose values satisfy
     `prinValueOK` (wildcard-free namespaces, '/'-free trust domains, ...), or one of the extended
     generators proved exact (JWT audiences / presenter / claims, experimental metadata). -/
-def mruleInScope (mr : MRule) : Bool :=
-  (!mr.g.extended || mr.g.extInScope) && (mr.values ++ mr.notValues).all (prinValueOK mr.g)
+def mruleInScope (req : Request) (mr : MRule) : Bool :=
+  if mr.g = .requestPrincipal then req.jwtOK && (mr.values ++ mr.notValues).all (rpValueOK · req)
+  else (!mr.g.extended || mr.g.extInScope) && (mr.values ++ mr.notValues).all (prinValueOK mr.g)
 
-def ruleInScope (pns : Str) (r : Rule) : Bool :=
+def ruleInScope (req : Request) (pns : Str) (r : Rule) : Bool :=
   match newModel pns r with
   | none => true
-  | some m => (m.permissions ++ m.principals).all fun rl => rl.all mruleInScope
+  | some m => (m.permissions ++ m.principals).all fun rl => rl.all (mruleInScope req)
 
 /-- Every (attribute, value) pair of the policies lies in the scope for which the value -> matcher
     translation is proved exact. -/
-def inScope (ps : List Policy) : Bool := ps.all fun p => p.rules.all (ruleInScope p.ns)
+def inScope (req : Request) (ps : List Policy) : Bool := ps.all fun p => p.rules.all (ruleInScope req p.ns)
 
 /-- Trust-domain migration changes nothing for this rule, in the compiler and in the semantics. -/
 def migrationNoopB (o : BuildOpts) (pns : Str) (r : Rule) : Bool :=
@@ -84,7 +103,7 @@ def entriesDistinctB (o : BuildOpts) (ps : List Policy) : Bool :=
 
 /-- All hypotheses of the main theorems as one computable check on (options, policies, request). -/
 def hypsB (o : BuildOpts) (ps : List Policy) (req : Request) : Bool :=
-  (ps.all fun p => p.rules.all fun r => migrationNoopB o p.ns r && ruleInScope p.ns r) &&
+  (ps.all fun p => p.rules.all fun r => migrationNoopB o p.ns r && ruleInScope req p.ns r) &&
   req.peerOK && entriesDistinctB o ps
 
 def translatableB (o : BuildOpts) (ps : List Policy) : Bool :=
